@@ -8,6 +8,7 @@ CONSTANTS
   AllowQueryX = FALSE
   AllowSweep = FALSE
   AllowDeclare = TRUE
+  AllowInfer = FALSE
   CopyModes = {}
   UnregisteredModes = {}
   Hist = TRUE
